@@ -10,6 +10,9 @@ N = {"quick": 300000, "thorough": 500000}
 def classify(case, go_err, spec_err):
     if case["fn"] == "UniqueItems" and go_err == 0 and spec_err == 1:
         return "unique-items-type-sensitive"
+    # Enum converts a number at the top level; inside a slice or a map the comparison is reflect.DeepEqual again
+    if case["fn"] in ("Enum", "EnumCase") and go_err == 1 and spec_err == 0 and (case.get("val") or {}).get("k") in ("slice", "nilslice", "map", "nilmap"):
+        return "enum-nested-numbers-type-sensitive"
     return None
 
 
